@@ -212,6 +212,27 @@ unsafe fn c_init(fl: u8, h: *mut HasherC, m: &MMode, raw: bool) -> bool {
     true
 }
 
+/// C07: run `f` on a copy of the hasher object that sits flush against an inaccessible page
+/// (the hasher object is the one thing besides the output the library may write)
+fn with_guarded_hasher(guard: bool, h: &mut HasherC, place: u8, f: impl FnOnce(*mut HasherC)) -> Result<(), OpErr> {
+    if !guard {
+        f(h as *mut HasherC);
+        return Ok(());
+    }
+    let sz = std::mem::size_of::<HasherC>();
+    let p = if place % 2 == 0 { crate::guard::Place::GuardAfter } else { crate::guard::Place::GuardBefore };
+    let gb = crate::guard::GuardBuf::new(sz, p);
+    unsafe {
+        std::ptr::copy_nonoverlapping(h as *const HasherC as *const u8, gb.ptr(), sz);
+        f(gb.ptr() as *mut HasherC);
+        std::ptr::copy_nonoverlapping(gb.ptr(), h as *mut HasherC as *mut u8, sz);
+    }
+    if let Some(off) = gb.canary_damage() {
+        return viol("canary", format!("byte at offset {} relative to the blake3_hasher object was written", off));
+    }
+    Ok(())
+}
+
 macro_rules! get {
     ($local:expr, $slot:expr) => {
         match $local.slots.get_mut(&$slot) {
@@ -272,16 +293,25 @@ pub fn do_cop(sh: &Arc<Shared>, local: &mut TaskLocal, op: &Op) -> OpResult {
             let bytes = d(sh, *data, *off, *len)?;
             let cs = get!(local, *c);
             let before = if bytes.is_empty() { Some(hasher_bytes(&cs.h)) } else { None };
+            let guard = sh.plan.cfg.guard_alloc;
+            let gin;
+            let bytes: &[u8] = if guard && !bytes.is_empty() {
+                gin = crate::guard::GuardBuf::with_bytes(bytes, crate::guard::place_of((*off as u8) ^ (*len as u8).rotate_left(5)));
+                unsafe { std::slice::from_raw_parts(gin.ptr(), gin.len()) }
+            } else {
+                bytes
+            };
             let p = if bytes.is_empty() { std::ptr::NonNull::<u8>::dangling().as_ptr() as *const c_void } else { bytes.as_ptr() as *const c_void };
+            let fl = cs.flavour;
             let hp: *mut HasherC = &mut *cs.h;
             match tbb {
-                None => unsafe {
-                    if cs.flavour == 0 {
+                None => with_guarded_hasher(guard, &mut cs.h, *len as u8, |hp| unsafe {
+                    if fl == 0 {
                         ca::update(hp, p, bytes.len())
                     } else {
                         ci::update(hp, p, bytes.len())
                     }
-                },
+                })?,
                 Some(policy) => {
                     set_joinctl(Some(JoinCtl {
                         policy: policy.clone(),
@@ -323,16 +353,31 @@ pub fn do_cop(sh: &Arc<Shared>, local: &mut TaskLocal, op: &Op) -> OpResult {
             let before = hasher_bytes(&cs.h);
             // canaries on both sides: exactly out_len bytes may be written
             const CAN: usize = 64;
+            let guard = sh.plan.cfg.guard_alloc;
             let mut buf = vec![0xC7u8; n + 2 * CAN];
-            let outp = if n == 0 { std::ptr::NonNull::<u8>::dangling().as_ptr() } else { unsafe { buf.as_mut_ptr().add(CAN) } };
-            let hp: *const HasherC = &*cs.h;
-            unsafe {
-                match (cs.flavour, seek) {
+            let gout = if guard && n > 0 { Some(crate::guard::GuardBuf::new(n, crate::guard::place_of((n as u8) ^ (pos as u8).rotate_left(3)))) } else { None };
+            let outp = if n == 0 {
+                std::ptr::NonNull::<u8>::dangling().as_ptr()
+            } else if let Some(g) = &gout {
+                g.ptr()
+            } else {
+                unsafe { buf.as_mut_ptr().add(CAN) }
+            };
+            let fl = cs.flavour;
+            with_guarded_hasher(guard, &mut cs.h, n as u8, |hp| unsafe {
+                let hp = hp as *const HasherC;
+                match (fl, seek) {
                     (0, None) => ca::finalize(hp, outp, n),
                     (_, None) => ci::finalize(hp, outp, n),
                     (0, Some(s)) => ca::finalize_seek(hp, *s, outp, n),
                     (_, Some(s)) => ci::finalize_seek(hp, *s, outp, n),
                 }
+            })?;
+            if let Some(g) = &gout {
+                if let Some(off) = g.canary_damage() {
+                    return viol("canary", format!("finalize wrote at offset {off} relative to its {n}-byte output buffer"));
+                }
+                buf[CAN..CAN + n].copy_from_slice(g.as_slice());
             }
             if buf[..CAN].iter().any(|b| *b != 0xC7) || buf[CAN + n..].iter().any(|b| *b != 0xC7) {
                 return viol("canary", format!("finalize wrote outside its {n}-byte output buffer"));
